@@ -84,6 +84,15 @@ var histSeeds = map[string]func(w *world) *world{
 		return okw(w.recoverFrom(w.image(), false), !w.c.Failed())
 	},
 	// many tables: the catalog trees themselves have split (sys_pages at 9 rows, sys_schema at 9 columns)
+	// six user tables: the next CREATE TABLE splits the root of the page table
+	"six-tables": func(w *world) *world {
+		for i := 0; i < 5; i++ {
+			if !w.do(mkCreate(fmt.Sprintf("c%d", i), []mCol{{"a", "int"}, {"c", "varchar"}})) {
+				return nil
+			}
+		}
+		return okw(w, w.do(mkCreate("t1", worldSchemas["t1"])) && w.do(mkInsert(w.model, "t1", 2, false)))
+	},
 	"catalog-split": func(w *world) *world {
 		for i := 0; i < 8; i++ {
 			name := fmt.Sprintf("c%d", i)
